@@ -243,6 +243,18 @@ func (cl *cluster) oracleStart(before controller.VerifView, i int, err error) {
 		if s == nil || !s.ok || s.target != ip(i) {
 			cl.violate("election", "start-by-unsignalled", fmt.Sprintf("Start from node %d accepted although the last start signal was %+v", i, s))
 		}
+		// replicas whose revision count is found lower at start-up are not used for reads
+		var max int64
+		for _, r := range after.Replicas {
+			if rev := cl.nodes[nodeOf(r.Address)].View().Rev; rev > max {
+				max = rev
+			}
+		}
+		for _, r := range after.Replicas {
+			if rev := cl.nodes[nodeOf(r.Address)].View().Rev; rev < max && r.Mode == types.RW {
+				cl.violate("election", "lower-revision-replica-readable", fmt.Sprintf("after Start node %d (revision counter %d) is RW although a started replica has revision counter %d", nodeOf(r.Address), rev, max))
+			}
+		}
 	}
 }
 
@@ -451,6 +463,26 @@ func (cl *cluster) enabled() []string {
 				}
 				if t == "StartWrong" && !pending && ip(i) != v.MaxRevReplica {
 					out = append(out, fmt.Sprintf("StartWrong:%d", i))
+				}
+			}
+		case "StartAll":
+			if len(v.Replicas) > 0 {
+				continue
+			}
+			for i, n := range cl.nodes {
+				m, ok := n.(*ModelNode)
+				pending := ok && len(m.Actions) > 0 && m.Actions[len(m.Actions)-1] == "start"
+				others := 0
+				for k := range cl.nodes {
+					if k != i && !cl.down[k] {
+						others++
+					}
+				}
+				if pending && !cl.down[i] && others > 0 {
+					out = append(out, fmt.Sprintf("StartAllAsc:%d", i))
+					if others > 1 {
+						out = append(out, fmt.Sprintf("StartAllDesc:%d", i))
+					}
 				}
 			}
 		case "Add":
